@@ -844,7 +844,11 @@ def run(rep):
     rep.assumptions = ["token spans are ordered as produced by the lexer (the model answers bad-token-spans otherwise)",
                        "model fuel 50*tokens+100 suffices (outOfFuel would show up as a disagreement)",
                        "source text <-> token list is the lexer's business (C14); the model parses token lists"]
-    run_extractor()
+    try:
+        run_extractor()
+    except vlib.BrokenTie as e:
+        # the tie is broken (recorded); the search for a failing input below still runs
+        rep.broken_tie(e.what, e.detail)
     vlib.prelude(rep)
     thorough = rep.tier == "thorough"
 
